@@ -603,3 +603,10 @@ package lang
 //@   at call ElementLookup#* modifies nothing
 //@   at call (*Variables).getDataType#* assert path == "." || len(split) == 1 || (split[0] != _VAR_GLOBAL && split[0] != _VAR_ENV && split[0] != _VAR_MODULE)
 //@   at call getGlobalDataType#* assert len(split) >= 2 && split[0] == _VAR_GLOBAL && arg0 == split[1]
+
+// ---- C22: defining a function records where it was defined -------------------------------------------------
+// (Re)defining a function stores the new block, parameters AND the file reference of THIS definition -
+// the module whose private functions the body will see.
+//@ func (*MurexFuncs).Define [C22]
+//@   check none
+//@   ensures imp(mf.fn != nil, has(mf.fn, name) && mf.fn[name].FileRef == fileRef && mf.fn[name].Block == block && mf.fn[name].Parameters == parameters)
